@@ -20,14 +20,14 @@ def importOps (bs : Nat) : Nat → List Nat → List Nat → List Op
     else .wb (nb.take bs) :: .wf (nf.take bs) :: importOps bs fuel (nb.drop bs) (nf.drop bs)
 
 /-- the log after a sequence of operations -/
-def applyAll (l : Log) : List Op → Log
+def applySeq (l : Log) : List Op → Log
   | [] => l
-  | op :: ops => applyAll (l.apply op) ops
+  | op :: ops => applySeq (l.apply op) ops
 
 /-- the durable state after a sequence of undisturbed operations -/
-def runAll (d : Durable) : List Op → Durable
+def runSeq (d : Durable) : List Op → Durable
   | [] => d
-  | op :: ops => runAll (exec d op .none).1 ops
+  | op :: ops => runSeq (exec d op .none).1 ops
 
 /-- durable steps of an operation of the import (file write + index transaction) -/
 def importOpSteps : Op → Nat
